@@ -678,6 +678,8 @@ def observe_schedule(case):
     Caches that go stale only when nobody looks in between need the sparse schedules; caches that go
     stale right after a look need the dense one."""
     n = sum(ord(c) for c in repr(case.get('ops'))) % 4
+    if case.get('verylong'):       # fixed very long histories (a pair with 65+ runs): a look every tenth call
+        return 'tenth'
     return ('every', 'every', 'other', 'sparse')[n]
 
 
@@ -686,4 +688,6 @@ def due(schedule, i, last):
         return True
     if schedule == 'other':
         return i % 2 == 1
+    if schedule == 'tenth':
+        return i % 10 == 9
     return i % 3 == 2
